@@ -61,8 +61,10 @@ def generate(seed, tier):
     mrng = random.Random("%s/mode" % seed)
     want = [n for n in ("tv", "kw", "n", "so", "s") if mrng.random() < 0.4]
     cfg = RunConfig(crng, want=want, force={"long_text_p": 0.0})
-    dg = DocGen(cfg, wrng, nkeys=12)
     fe = mrng.choice(FRONTENDS)
+    # some documents carry stored values only (no posting at all): a sub-writer whose
+    # whole share is such documents has nothing to sort, which must not lose them
+    dg = DocGen(cfg, wrng, nkeys=12, stored_only_p=(0.25 if (fe in ("mp", "mpmulti", "serialmp", "plain") and mrng.random() < 0.4) else 0.0))
     storage_kind = mrng.choice(("file", "file", "ram"))
     if fe in ("mp", "mpmulti"):
         storage_kind = "file"
